@@ -1707,6 +1707,9 @@ class Surface(SplineGeometry):
             warnings.warn("Tessellation component must be an instance of AbstractTessellate class")
             return
 
+        # The component may have been used before (by this surface or by another one): the mesh it still holds does not
+        # describe this surface as it is now
+        value.reset()
         self._tsl_component = value
 
     @property
